@@ -150,7 +150,47 @@ func (k c03) Run(c *rt.Ctx) {
 		}
 		stmt = &gen.Stmt{Kind: "select", Where: w, Fields: []gen.Field{{E: gen.Key()}, {E: lst, Alias: "tags"}}}
 		query = stmt.Text(gen.Plain)
-	} else if r.Chance(1, 10) {
+	} else if r.Chance(1, 16) {
+		// several fields derived from one named numeric field: each has its own values (a vector
+		// handed out twice and computed in place would show the last computation in all of them)
+		c.Rec.Inc("fields_derived_from_one_name")
+		var ps []refstore.Pair
+		for i, n := 0, r.Range(3, 40); i < n; i++ {
+			ps = append(ps, refstore.Pair{K: fmt.Sprintf("k%02d", i), V: fmt.Sprint((i*7)%23 - 4)})
+		}
+		st = &gen.Store{Family: "derived", Pairs: refstore.New(ps).Pairs()}
+		vdef := gen.Call("int", gen.Value())
+		v := func() *gen.Node { return gen.Ref("v", vdef) }
+		stmt = &gen.Stmt{Kind: "select", Where: gen.Bin("^=", gen.Key(), gen.Str("k")), Fields: []gen.Field{{E: gen.Key()}, {E: vdef, Alias: "v"},
+			{E: gen.Bin("*", v(), gen.Int(2)), Alias: "a"}, {E: gen.Bin("*", v(), gen.Int(3)), Alias: "b"}, {E: gen.Bin("+", gen.Bin("*", v(), gen.Int(2)), v()), Alias: "c"}}}
+		switch r.Intn(3) {
+		case 0:
+			stmt.Where = gen.And(stmt.Where, gen.Bin(">", gen.Bin("+", v(), gen.Int(100)), gen.Int(0)))
+		case 1: // the named field drops pairs here and there: the first scanned pair passes, later ones do not
+			stmt.Where = gen.And(gen.Bin("!=", v(), gen.Int(int64((r.Range(1, 6)*7)%23-4))), gen.Bin("!=", v(), gen.Int(int64((r.Range(1, 6)*7)%23-4))))
+		}
+		query = stmt.Text(gen.Plain)
+	} else if r.Chance(1, 16) {
+		// a pair that fails at run time right behind a LIMIT window: whoever reads one pair more
+		// than the window needs fails in one mode only
+		c.Rec.Inc("failing_pair_behind_the_window")
+		n := r.Range(1, 6)
+		var ps []refstore.Pair
+		for i := 0; i < n+r.Range(1, 4); i++ {
+			v := fmt.Sprint(i + 1)
+			if i == n {
+				v = "0"
+			}
+			ps = append(ps, refstore.Pair{K: fmt.Sprintf("k%02d", i), V: v})
+		}
+		st = &gen.Store{Family: "window", Pairs: refstore.New(ps).Pairs()}
+		stmt = &gen.Stmt{Kind: "select", Where: gen.Bin("^=", gen.Key(), gen.Str("k")), Fields: []gen.Field{{E: gen.Key()}, {E: gen.Bin("/", gen.Int(100), gen.Call("int", gen.Value())), Alias: "q"}}, HasLim: true, Count: n}
+		if r.Bool() {
+			stmt.Where = gen.And(stmt.Where, gen.Bin(">", gen.Bin("/", gen.Int(100), gen.Call("int", gen.Value())), gen.Int(0)))
+			stmt.Fields = stmt.Fields[:1]
+		}
+		query = stmt.Text(gen.Plain)
+	} else if r.Chance(1, 6) {
 		// runs: whole chunks on which the left operand of & / | decides every pair, then a
 		// chunk where the right operand (a named field) decides; small batch sizes
 		c.Rec.Inc("run_structured_stores")
@@ -181,7 +221,7 @@ func (k c03) Run(c *rt.Ctx) {
 			w = gen.Or(gen.Bin("^=", gen.Value(), gen.Str("a")), right)
 		}
 		stmt = &gen.Stmt{Kind: "select", Where: w, Fields: []gen.Field{{E: gen.Key()}, {E: gen.Call("upper", gen.Value()), Alias: "u"}}}
-		if r.Bool() {
+		if r.Chance(2, 3) {
 			// a second field defined through the first, shown and used by the filter as well
 			wdef := gen.Bin("+", u, gen.Str("!"))
 			stmt.Fields = append(stmt.Fields, gen.Field{E: wdef, Alias: "w"})
